@@ -583,6 +583,10 @@ func runC05RT(c *c05rtCase) (out c05Outcome) {
 				r.FailNext(id[:], true, e.N)
 			case "fail_recv":
 				r.FailNext(id[:], false, e.N)
+			case "restart":
+				// the relay process is restarted: mailboxes and queued
+				// messages are gone, streams break
+				r.Restart()
 			case "down":
 				r.SetDown(true)
 			case "up":
@@ -774,7 +778,7 @@ func TestC05RealTime(t *testing.T) {
 			eg := rapid.Custom(func(t *rapid.T) relayEvent {
 				return relayEvent{
 					AtMs: rapid.SampledFrom([]int{0, 50, 300, 1000, 2500, 4000}).Draw(t, "at"),
-					Kind: rapid.SampledFrom([]string{"fail_send", "fail_send", "fail_recv", "fail_recv", "down", "up"}).Draw(t, "kind"),
+					Kind: rapid.SampledFrom([]string{"fail_send", "fail_send", "fail_recv", "fail_recv", "down", "up", "restart"}).Draw(t, "kind"),
 					Dir:  rapid.SampledFrom([]string{"c2s", "s2c"}).Draw(t, "dir"),
 					N:    rapid.IntRange(1, 2).Draw(t, "n"),
 				}
